@@ -1,4 +1,6 @@
 //! Engine E3: bounded-exhaustive lanes against the independent references in vcore.
+pub mod c03;
+pub mod c06;
 pub mod c07;
 pub mod c08;
 pub mod c09;
